@@ -101,6 +101,14 @@ CHECKS.update({
     ),
 })
 
+CHECKS.update({
+    "C18": dict(
+        technique="property-based testing over build histories: the same generated field sequence is constructed four ways (text struct, text typedef, API one-shot, API incremental along a generated commit split) and compared (layout, compiled flag, generated source, behaviour); every intermediate commit is compared with the one-shot prefix",
+        text="generated field sequences x commit splits x compiled/aligned: the four constructions must agree on layout signature, __compiled__, generated reader source, parse results/sizes/tell/dumps on constructive and truncated inputs and on default/eq/bool behaviour; after each intermediate commit the incremental class must equal the one-shot class of that prefix; self-referential pointer members included",
+        design_ref="DESIGN.md §4 C18",
+    ),
+})
+
 NOT_YET = {}
 
 
